@@ -151,6 +151,47 @@ COMPANION_LAYOUT_KINDS = ('strided',)
 C15_REPS = ('f4', 'i4', 'i8', 'be', 'F', 'strided', 'ma_empty', 'ma_nomask', 'nddata', 'quantity')
 C15_MIXED = ('mixed_data', 'mixed_companion')
 NDDATA_REPS = ('nddata', 'nddata_q')      # 'nddata_q' (C15): NDData with a unit + Quantity companions
+# --- forms of an NDData container (C15) -----------------------------------------
+# An NDData holds the 1-sigma errors as an *uncertainty object* of one of three types, with or without a unit of its own:
+#   '<nddata | nddata_q>+<type>[+<unit>][+ccd]'
+#   type : std   StdDevUncertainty(sigma)          var   VarianceUncertainty(sigma**2)        ivar  InverseVariance(1 / sigma**2)
+#   unit : (none) the uncertainty has no unit of its own (unit-less NDData; unit-ful NDData: it inherits the container's)
+#          unit   it carries the unit explicitly (Jy, Jy**2, Jy**-2)       -- unit-ful NDData only
+#          other  the same physical values in mJy (mJy**2, mJy**-2): numbers x 1e3 (1e6, 1e-6)    -- unit-ful NDData only
+#   ccd  : the container is a CCDData (the NDData subclass that demands a unit) -- unit-ful only
+# ('nddata' / 'nddata_q' themselves are std without a unit of its own.)  Full product type x unit form per container
+# kind, plus the CCDData class for the plain form: every one holds exactly the numbers of (data, error=sigma, mask).
+NDDATA_UNC_TYPES = ('std', 'var', 'ivar')
+NDDATA_UNC_UNITS = ('unit', 'other')
+NDDATA_FORMS = tuple(f'nddata+{t}' for t in NDDATA_UNC_TYPES[1:]) + tuple(
+    f'nddata_q+{t}' + (f'+{m}' if m else '') for t in NDDATA_UNC_TYPES for m in ('',) + NDDATA_UNC_UNITS if (t, m) != ('std', '')) \
+    + ('nddata_q+std+ccd',)
+
+
+def nddata_base(rep):
+    """'nddata' / 'nddata_q' for an NDData representation or one of its forms, else None."""
+    b = rep.split('+', 1)[0]
+    return b if b in NDDATA_REPS else None
+
+
+def nddata_uncertainty(form, sigma, unit):
+    """The uncertainty object of an NDData form (tokens after the base name) holding the 1-sigma errors ``sigma``;
+    ``unit``: the unit of the container (None: unit-less)."""
+    import astropy.units as u
+    from astropy.nddata import InverseVariance, StdDevUncertainty, VarianceUncertainty
+    tokens = set(form)
+    kind = ([t for t in NDDATA_UNC_TYPES if t in tokens] or ['std'])[0]
+    cls, power = {'std': (StdDevUncertainty, 1), 'var': (VarianceUncertainty, 2), 'ivar': (InverseVariance, -2)}[kind]
+    own = None
+    sigma = np.array(sigma, dtype=float)
+    if tokens & set(NDDATA_UNC_UNITS):
+        if unit is None:
+            raise NotApplicable('an uncertainty with a unit of its own in a unit-less NDData')
+        if 'other' in tokens:
+            sigma = sigma * 1000.0
+            unit = u.mJy
+        own = unit ** power
+    return cls(sigma ** power, unit=own)
 # --- dtype x byte-order axis (C15) -------------------------------------------
 # numpy dtype string of every dtype-only representation (C-contiguous ndarray).
 DTYPE_OF_REP = collections.OrderedDict([
@@ -351,9 +392,17 @@ def snap(obj):
             out[f'column {n!r}'] = comp
         return out
     if isinstance(obj, (list, tuple)):
-        return {f'[{i}]': snap(x) for i, x in enumerate(obj)}
+        out = {f'[{i}]': snap(x) for i, x in enumerate(obj)}
+        out['(class)'] = type(obj).__name__
+        out['(length)'] = len(obj)
+        return out
     if isinstance(obj, dict):
-        return {f'[{k!r}]': snap(v) for k, v in obj.items()}
+        # deep: class, keys in order, every value (nested containers recursively): an entry that is added, dropped,
+        # replaced or moved is named
+        out = {f'[{k!r}]': snap(v) for k, v in obj.items()}
+        out['(class)'] = type(obj).__name__
+        out['(key order)'] = tuple(repr(k) for k in obj)
+        return out
     tname = type(obj).__module__ + '.' + type(obj).__qualname__
     try:
         from astropy.modeling import Model
@@ -515,8 +564,9 @@ class Ctx:
     """Hands out arguments in one representation / data condition, executes
     steps, watches the caller-held objects."""
 
-    def __init__(self, rep, cond, seed, integer_scene=False, scale=1.0, maskform='cond', geom='base', domain='full', extras=False):
+    def __init__(self, rep, cond, seed, integer_scene=False, scale=1.0, maskform='cond', geom='base', domain='full', extras=False, full=False):
         import astropy.units as u
+        self.full = full                     # C10: recipes with a quick-tier sub-product enumerate their full product (thorough tier)
         self.domain = domain                 # value domain (C15): see DOMAINS
         # C10: ``members`` also calls the plotting / patch / region members and the members that need arguments, with the
         # NON-default argument sets of ``registry_members`` and watching the object itself; recipes run their
@@ -533,6 +583,10 @@ class Ctx:
             _, kind, slot = rep.split(':', 2)
             self.comp = (kind, slot)
             rep = 'ndarray'
+        self.nd_form = ()                    # C15: form of the NDData container (see NDDATA_FORMS)
+        if nddata_base(rep) is not None and '+' in rep:
+            rep, *form = rep.split('+')
+            self.nd_form = tuple(form)
         self.solo = tuple(rep.split(':', 1)) if ':' in rep else None      # (mode, slot)
         self.slots = collections.OrderedDict()      # slot name -> number of hand-outs
         self.step_slots = {}                        # step label -> slots the call receives (directly or through an object built from them)
@@ -878,6 +932,11 @@ class Ctx:
             e = self._cut(self.sc['error'], region).copy()
             m = self._cut(self.sc['mask'], region).copy() if self.sc['mask'] is not None else None
             # 'nddata_q' (C15): the NDData carries the unit (its uncertainty inherits it), companions are Quantities
+            if self.nd_form:                 # C15: uncertainty type x unit form x container class
+                from astropy.nddata import CCDData
+                unit = self.unit if rep == 'nddata_q' else None
+                return self.hold(name, (CCDData if 'ccd' in self.nd_form else NDData)(
+                    a.copy(), uncertainty=nddata_uncertainty(self.nd_form, e, unit), mask=m, wcs=nd_wcs, unit=unit))
             return self.hold(name, NDData(a.copy(), uncertainty=StdDevUncertainty(e), mask=m, wcs=nd_wcs,
                                           unit=self.unit if rep == 'nddata_q' else None))
         return self.array(name, a, kind='data')
@@ -1129,13 +1188,14 @@ def recipe(name, covers, nddata=False, units=False, numeric=True, slow=False, ax
     return deco
 
 
-def run_recipe(name, rep, cond, seed, integer_scene=False, scale=1.0, maskform='cond', geom='base', domain='full', extras=False):
+def run_recipe(name, rep, cond, seed, integer_scene=False, scale=1.0, maskform='cond', geom='base', domain='full', extras=False,
+               full=False):
     """Execute one recipe; returns the context (steps, changes, outputs) or
     None when the combination is not applicable."""
     r = RECIPES[name]
-    if (rep in NDDATA_REPS and not r.nddata) or geom not in r.geoms:
+    if (nddata_base(rep) is not None and not r.nddata) or geom not in r.geoms:
         return None
-    c = Ctx(rep, cond, seed, integer_scene=integer_scene, scale=scale, maskform=maskform, geom=geom, domain=domain, extras=extras)
+    c = Ctx(rep, cond, seed, integer_scene=integer_scene, scale=scale, maskform=maskform, geom=geom, domain=domain, extras=extras, full=full)
     try:
         with warnings.catch_warnings():
             warnings.simplefilter('ignore')
@@ -1195,3 +1255,4 @@ def coverage():
 
 
 from . import registry_recipes  # noqa: E402,F401  (fills RECIPES)
+from . import registry_containers  # noqa: E402,F401  (C10: container arguments, EPSF star geometries)
